@@ -4,7 +4,7 @@ from concurrent.futures import ThreadPoolExecutor
 from tlc import run_tlc, printed, ToolError, WORK, spec_digest
 
 
-def judge_shards(shards, module="TraceRt", jobs=12, log=print):
+def judge_shards(shards, module="TraceRt", jobs=12, log=print, tag="VIOL"):
     """shards: [{"trace": path, "events": n}] -> (violations [{line, case, why, props, ev, shard}], stats)"""
     rundir = os.path.join(WORK, "judge", spec_digest())
     os.makedirs(rundir, exist_ok=True)
@@ -18,7 +18,7 @@ def judge_shards(shards, module="TraceRt", jobs=12, log=print):
         cons = re.search(r'<<"CONSUMED", (\d+)>>', out)
         if not cons or int(cons.group(1)) != sh["events"] or "Model checking completed. No error has been found." not in out:
             raise ToolError(f"trace validation of {sh['trace']} did not complete:\n{out[-4000:]}")
-        v = printed(out, "VIOL")
+        v = printed(out, tag)
         for x in v:
             x["shard"] = sh["trace"]
         return v, st
